@@ -873,8 +873,15 @@ func configs(tier string) []config {
 			{"range-delete/preload=100", 100, big, 4},
 		}
 	}
+	// quick: the full alphabet without three operations whose effect class is covered by a sibling
+	var most []int
+	for _, o := range full {
+		if o != opDelBIfV0 && o != opPutAIfAbsent && o != opSeq1 {
+			most = append(most, o)
+		}
+	}
 	return []config{
-		{"full/empty", 0, full, 3},
+		{"full/empty", 0, most, 3},
 		{"sessions/empty", 0, sess, 4},
 		{"sequences/empty", 0, seqs, 3},
 		{"indexes/empty", 0, idxs, 3},
@@ -913,7 +920,7 @@ func main() {
 		}
 	}
 	passes := []pass{{"routes R2,R3,R4,R6", 0, ""}, {"R5 chunk=7", 7, ""}, {"R5 chunk=1MiB (not full/, sessions/)", 1 << 20, "full/,sessions/"}}
-	budget := 75 * time.Second
+	budget := 90 * time.Second
 	r6every := 40
 	if run.Tier == "thorough" {
 		allPairs = true
